@@ -20,7 +20,7 @@ PARTIAL = [
     "tangent / normal: the floating-point sqrt and the 18-decimals rounding of vector_normalize are outside the theorems (in the exact mode of the harness the '%.18f' formatting step is NOT EXERCISED: the exact number type ignores the format spec, so tancn / tansn / nrmsn compare the unrounded quotient - model = code there says nothing about the rounding step, and these kinds are not in FLOAT_KINDS; the oracle checks parallelism exactly and the length to relative 2^-49)",
     'vanishing weight function (statement audit 5): the setters accept weights of mixed sign; where the weight function vanishes inside the domain derivatives / tangent / normal of the rational shape raise ZeroDivisionError - the rational ops (cders, sders, cders32, sders36, the R twins, tanc, tans, nrms, tancn, tansn, nrmsn) answer ERR when the evaluated weight is 0 (Drv.cWZero / sWZero); every rational theorem carries positive weights (hwt; added to normal_rational_surface_on_domain / normalized_normal_rational_surface_on_domain, where the proof does not need it); stream zero-weight',
 ]
-PARTIAL.append("proved (REPAIRED span search, F-01b; models curveDersR / curveDersA32R / surfaceDersR / surfaceDersA36R of Model/SpanRGrid.lean = the per-span tables curveDersAt / curveDersA32 / surfaceDersAt / surfaceDersA36 on the span(s) findSpanLinearR returns; ops cdersr / cders32r / sdersr / sders36r): on the whole closed domain of EVERY sorted knot vector with U_p < U_n per direction - the last domain span may be EMPTY - every entry of both curve evaluators is the iterated Polynomial.derivative of the span polynomial of the (legal, non-empty, parameter-containing) span found (curve_derivatives_repaired_on_domain, a32_as_coded_repaired_on_domain); at u = U_n that span is the last non-empty one, the curve coincides with its polynomial on [U_k, U_n), so the values are the LEFT-hand derivatives (curve_derivatives_repaired_at_domain_end); rational curves: positive weight polynomial and the Leibniz system for both evaluators (rational_curve_derivatives_repaired_leibniz); surfaces: tensor-formula table (tri for SurfaceEvaluator2) and A3.6 as coded = mixed partials of the bivariate span polynomial of the span pair found (surface_derivatives_repaired_on_domain), rational surfaces (rational_surface_derivatives_repaired_on_domain); under KnotsOk the R tables are the tables of the other theorems (derivatives_repaired_eq_derivatives); kernel-decided witness curve_derivatives_repaired_witness_F01b; correspondence: stream empty-last-span (kinds cdersr / cdersr-alt / cders32r / sdersr / sdersr-alt / sders36r, at U_n and inside, orders up to degree + 2, both evaluators, with the exact oracle = derivatives of the last non-empty span's polynomial) and the same ops on ordinary shapes (tag ordinary-r). A3.7 + A3.8 as coded lifted too (model surfaceDersA38R, op sders38r on ordinary shapes and in the stream empty-last-span for SurfaceEvaluator2: a38_as_coded_repaired_on_domain - equals surfaceDersR tri, entries k + l <= order are the mixed partials of the span pair found, rest zero; a38_as_coded_repaired_eq; witness a38_as_coded_repaired_witness_F01b). tangent / normal with normalize=False lifted as well (ops tancr / tansr / nrmsr = tangentCurve / tangentSurface / normalSurface over curveDersA32R / surfaceDersA36R, generated in the stream empty-last-span at U_n and inside, model line AND exact oracle; theorems tangent_curve_repaired_on_domain, tangent_surface_repaired_on_domain, normal_surface_repaired_on_domain for non-rational shapes, witness tangent_curve_repaired_witness_F01b; rational shapes: the ops run A4.2 / A4.4 over the R tables, whose entries are covered by the rational ..._repaired theorems). rational CURVE tangent in quotient-rule form lifted: tangent_rational_curve_repaired_quotient_rule, rational SURFACE tangent likewise: tangent_rational_surface_repaired_quotient_rule. rational NORMAL: normal_rational_surface_repaired_on_domain. NOT lifted to the repaired search: the normalize=True ops (tancn, tansn, nrmsn) and the hodograph theorems / ops (stated through findSpanLinear under KnotsOk / CurveWF, ERR on an empty found span), binsearch-selected derivatives (C17)")
+PARTIAL.append("proved (REPAIRED span search, F-01b; models curveDersR / curveDersA32R / surfaceDersR / surfaceDersA36R of Model/SpanRGrid.lean = the per-span tables curveDersAt / curveDersA32 / surfaceDersAt / surfaceDersA36 on the span(s) findSpanLinearR returns; ops cdersr / cders32r / sdersr / sders36r): on the whole closed domain of EVERY sorted knot vector with U_p < U_n per direction - the last domain span may be EMPTY - every entry of both curve evaluators is the iterated Polynomial.derivative of the span polynomial of the (legal, non-empty, parameter-containing) span found (curve_derivatives_repaired_on_domain, a32_as_coded_repaired_on_domain); at u = U_n that span is the last non-empty one, the curve coincides with its polynomial on [U_k, U_n), so the values are the LEFT-hand derivatives (curve_derivatives_repaired_at_domain_end); rational curves: positive weight polynomial and the Leibniz system for both evaluators (rational_curve_derivatives_repaired_leibniz); surfaces: tensor-formula table (tri for SurfaceEvaluator2) and A3.6 as coded = mixed partials of the bivariate span polynomial of the span pair found (surface_derivatives_repaired_on_domain), rational surfaces (rational_surface_derivatives_repaired_on_domain); under KnotsOk the R tables are the tables of the other theorems (derivatives_repaired_eq_derivatives); kernel-decided witness curve_derivatives_repaired_witness_F01b; correspondence: stream empty-last-span (kinds cdersr / cdersr-alt / cders32r / sdersr / sdersr-alt / sders36r, at U_n and inside, orders up to degree + 2, both evaluators, with the exact oracle = derivatives of the last non-empty span's polynomial) and the same ops on ordinary shapes (tag ordinary-r). A3.7 + A3.8 as coded lifted too (model surfaceDersA38R, op sders38r on ordinary shapes and in the stream empty-last-span for SurfaceEvaluator2: a38_as_coded_repaired_on_domain - equals surfaceDersR tri, entries k + l <= order are the mixed partials of the span pair found, rest zero; a38_as_coded_repaired_eq; witness a38_as_coded_repaired_witness_F01b). tangent / normal with normalize=False lifted as well (ops tancr / tansr / nrmsr = tangentCurve / tangentSurface / normalSurface over curveDersA32R / surfaceDersA36R, generated in the stream empty-last-span at U_n and inside, model line AND exact oracle; theorems tangent_curve_repaired_on_domain, tangent_surface_repaired_on_domain, normal_surface_repaired_on_domain for non-rational shapes, witness tangent_curve_repaired_witness_F01b; rational shapes: the ops run A4.2 / A4.4 over the R tables, whose entries are covered by the rational ..._repaired theorems). rational CURVE tangent in quotient-rule form lifted: tangent_rational_curve_repaired_quotient_rule, rational SURFACE tangent likewise: tangent_rational_surface_repaired_quotient_rule. rational NORMAL: normal_rational_surface_repaired_on_domain. normalize=True: the generic theorems tangent_curve_normalized / tangent_surface_normalized / normal_surface_normalized hold for ANY table, hence for the R tables. NOT lifted to the repaired search: the normalize=True ops (tancn, tansn, nrmsn) and normalized_..._rational_..._on_domain and the hodograph theorems / ops (stated through findSpanLinear under KnotsOk / CurveWF, ERR on an empty found span), binsearch-selected derivatives (C17)")
 
 
 def _shrink(rng, d):
